@@ -116,6 +116,13 @@ def multichain_force_fanout(A):
                 same = first is not None and src(first) == tparam and all(isinstance(v, ast.Name) and v.id == k and k in ff.params for k, v in ba.items() if k != cforce.params[1]) \
                     and all(p in ba for p in ff.params[2:])
             stored = {n.id for n in A.typer.own_nodes(ff) if isinstance(n, ast.Name) and isinstance(n.ctx, ast.Store)}
+            if tparam in stored and first is not None:
+                # the request may be materialised (a one-shot iterable must serve every chain): list(tasks) / tuple(tasks) is still "the same tasks"
+                from ..terms import cond_leaves
+                tp_ = ('p', tparam)
+                alts = [leaf for t_ in A.sym.terms_at(ff, ('inst', mc), [first]).get(id(first), []) for leaf in cond_leaves(t_)]
+                if alts and all(leaf in (tp_, ('call', 'list', (tp_,)), ('call', 'tuple', (tp_,))) for leaf in alts):
+                    stored.discard(tparam)
             reassigned = bool(stored & ({tparam, kwname} | set(ff.params[2:]))) or \
                 any(isinstance(n, (ast.Subscript, ast.Attribute)) and isinstance(n.ctx, (ast.Store, ast.Del)) and src(n.value) in (tparam, kwname) for n in A.typer.own_nodes(ff))
             ok = bool(same) and not reassigned
@@ -254,3 +261,9 @@ def run(A, R: Report, thorough: bool):
     R.require(ff is not None, 'anchor: MultiChain.force missing')
     ok, why = multichain_force_fanout(A)
     R.check(ok, 'R13.4', 'MultiChain.force', key_of('fanout', why), 'every chain forced with the same request', f'MultiChain.force does not reach every chain with the original request ({why}): tasks that differ between the chains stay unforced in some of them', where=where(ff))
+
+    from .c03 import check_lossless_encoding
+    from .keyterm import KeyTerms as _KT
+    R.rule('R13.9', 'the sharing key is a hash of the whole key text: the text is encoded losslessly (configs differing only in non-ASCII characters of a value must not share a task object)', floor=1)
+    check_lossless_encoding(A, R, 'R13.9', _KT(A))
+
